@@ -156,6 +156,11 @@ theorem argPush_allOk (rs : List Item) (args : List ArgTok) (h : AllOk rs) : All
         · exact AllOk.cons (usedOk_plain _ _ (by simp [sItem])) h
     | cm v => exact AllOk.cons (usedOk_plain _ _ (by simp [cmItem])) h
 
+theorem funcPush_allOk (two : Bool) (f : Cps) (args : List ArgTok) (rs : List Item) (h : AllOk rs) :
+    AllOk (funcPush two f args rs) := by
+  refine AllOk.cons (usedOk_plain _ _ (by simp)) (argPush_allOk _ _ (AllOk.cons ?_ h))
+  cases two <;> exact usedOk_plain _ _ (by simp [pseudoTT])
+
 theorem NegArg.rpush_allOk (ns : NsMap) (x : NegArg) (hx : x.ok ns = true) (rs : List Item) (h : AllOk rs) :
     AllOk (x.rpush ns rs) := by
   cases x with
@@ -164,6 +169,7 @@ theorem NegArg.rpush_allOk (ns : NsMap) (x : NegArg) (hx : x.ok ns = true) (rs :
   | cls n => exact AllOk.cons (usedOk_plain _ _ (by simp)) h
   | attr a => exact Attr.rpush_allOk ns a hx rs h
   | pseudo two n => exact AllOk.cons (pseudoItem_ok two n) h
+  | func two f args => exact funcPush_allOk two f args rs h
 
 theorem Simple.rpush_allOk (ns : NsMap) (s : Simple) (hs : s.ok ns = true) (rs : List Item) (h : AllOk rs) :
     AllOk (s.rpush ns rs) := by
@@ -172,9 +178,7 @@ theorem Simple.rpush_allOk (ns : NsMap) (s : Simple) (hs : s.ok ns = true) (rs :
   | cls n => exact AllOk.cons (usedOk_plain _ _ (by simp)) h
   | attr a => exact Attr.rpush_allOk ns a hs rs h
   | pseudo two n => exact AllOk.cons (pseudoItem_ok two n) h
-  | func two f args =>
-    refine AllOk.cons (usedOk_plain _ _ (by simp)) (argPush_allOk _ _ (AllOk.cons ?_ h))
-    cases two <;> exact usedOk_plain _ _ (by simp [pseudoTT])
+  | func two f args => exact funcPush_allOk two f args rs h
   | not fv f1 x f2 =>
     simp only [Simple.ok, Bool.and_eq_true] at hs
     exact AllOk.cons (usedOk_plain _ _ (by simp))
